@@ -58,6 +58,9 @@ func (c *fnCtx) resolveCallee(cc *ssa.CallCommon) calleeInfo {
 		ci.key = c.g.funcKey[fn.Origin()]
 	}
 	ci.con = c.g.cs.Funcs[ci.key]
+	if ci.con == nil {
+		ci.con = c.g.inheritedContract(fn)
+	}
 	if len(fn.Params) > 0 || fn.Blocks != nil {
 		for _, p := range fn.Params {
 			ci.names = append(ci.names, p.Name())
@@ -83,6 +86,7 @@ func (c *fnCtx) execCall(st *State, in ssa.Instruction, cc *ssa.CallCommon, res 
 			c.set(res, v)
 		}
 	}
+	c.protectCall(st, cc, in.Pos())
 	if b, ok := cc.Value.(*ssa.Builtin); ok {
 		setRes(c.execBuiltin(st, b, cc, in))
 		return
@@ -407,6 +411,15 @@ func (c *fnCtx) applyContract(st *State, ci calleeInfo, args []SymVal, rt types.
 		}
 		if len(args) > 0 {
 			env.vars["self"] = args[0]
+		}
+		for i, n := range con.Aliases {
+			if i < len(args) {
+				a := args[i]
+				if a.T == nil && i < len(ci.ptypes) {
+					a.T = ci.ptypes[i]
+				}
+				env.vars[n] = a
+			}
 		}
 	}
 	c.calleeCount[ci.key]++
@@ -754,6 +767,17 @@ func (c *fnCtx) runDefers(st *State, pos token.Pos) {
 		if d.flag == "false" {
 			continue
 		}
+		if d.prepaid {
+			saved := map[string]string{}
+			for k, v := range st.ghost {
+				saved[k] = v
+			}
+			if d.flag != "false" {
+				c.execCall(st, d.call, &d.call.Call, nil)
+			}
+			st.ghost = saved
+			continue
+		}
 		if d.flag == "true" {
 			c.execCall(st, d.call, &d.call.Call, nil)
 			continue
@@ -808,13 +832,13 @@ func (c *fnCtx) mergeTwo(dst, a, b *State) {
 	for k, v := range a.ghost {
 		bv, ok := b.ghost[k]
 		if !ok {
-			bv = "0"
+			bv = c.ghostEntry(k)
 		}
 		dst.ghost[k] = c.define("g", "Int", sIte(cond, v, bv))
 	}
 	for k, v := range b.ghost {
 		if _, ok := a.ghost[k]; !ok {
-			dst.ghost[k] = c.define("g", "Int", sIte(cond, "0", v))
+			dst.ghost[k] = c.define("g", "Int", sIte(cond, c.ghostEntry(k), v))
 		}
 	}
 	dst.top = c.define("top", "Int", sIte(cond, a.top, b.top))
